@@ -4,22 +4,100 @@ package openapi3
 
 // Contracts for marshalling / unmarshalling (C03). Comment-only; read by /verif/engine (govc).
 
-//@ func (Parameter).MarshalYAML
+//@ generate marshal Components @C03
+//@ generate marshal Contact @C03
+//@ generate marshal Discriminator @C03
+//@ generate marshal Encoding @C03
+//@ generate marshal Example @C03
+//@ generate marshal ExternalDocs @C03
+//@ generate marshal Info @C03
+//@ generate marshal License @C03
+//@ generate marshal Link @C03
+//@ generate marshal MediaType @C03
+//@ generate marshal OAuthFlow @C03
+//@ generate marshal OAuthFlows @C03
+//@ generate marshal Operation @C03
+//@ generate marshal Parameter @C03
+//@ generate marshal PathItem @C03 unlessref=Ref
+//@ generate marshal RequestBody @C03
+//@ generate marshal Response @C03
+//@ generate marshal Schema @C03
+//@ generate marshal SecurityScheme @C03
+//@ generate marshal Server @C03
+//@ generate marshal ServerVariable @C03
+//@ generate marshal T @C03
+//@ generate marshal Tag @C03
+//@ generate marshal XML @C03
+
+// reference wrappers
+//@ generate refmarshal CallbackRef @C03
+//@ generate refmarshal ExampleRef @C03
+//@ generate refmarshal HeaderRef @C03
+//@ generate refmarshal LinkRef @C03
+//@ generate refmarshal ParameterRef @C03
+//@ generate refmarshal RequestBodyRef @C03
+//@ generate refmarshal ResponseRef @C03
+//@ generate refmarshal SchemaRef @C03
+//@ generate refmarshal SecuritySchemeRef @C03
+
+//@ func (Header).MarshalYAML
 //@   modifies nothing
-//@   ensures [no-error] result.1 == nil
-//@   ensures [name] parameter.Name != "" ==> has(result.0.(map[string]any), "name") && result.0.(map[string]any)["name"] == iface(parameter.Name)
-//@   ensures [explode] parameter.Explode != nil ==> has(result.0.(map[string]any), "explode") && result.0.(map[string]any)["explode"] == iface(parameter.Explode)
-//@   ensures [content] len(parameter.Content) != 0 ==> has(result.0.(map[string]any), "content") && result.0.(map[string]any)["content"] == iface(parameter.Content)
-//@   ensures [nothing-invented] forall k string :: has(result.0.(map[string]any), k) ==> has(parameter.Extensions, k) || k == "name" || k == "in" || k == "description" || k == "style" || k == "explode" || k == "allowEmptyValue" || k == "allowReserved" || k == "deprecated" || k == "required" || k == "schema" || k == "example" || k == "examples" || k == "content"
-//@   loop 0 invariant forall k string :: has(m, k) ==> has(parameter.Extensions, k)
+//@   ensures [delegates-to-parameter] result.1 == nil && typeof(result.0) == type Parameter && result.0.(Parameter) == header.Parameter
 //@   tag C03
 
-//@ func (*Parameter).UnmarshalJSON
-//@   requires parameter != nil
-//@   modifies *
-//@   ensures [known-keys-stripped] result == nil ==> !has(parameter.Extensions, "name") && !has(parameter.Extensions, "content") && !has(parameter.Extensions, "in")
-//@   ensures [unknown-kept] result == nil ==> forall k string :: jsonHasKey(data, k) && k != "__origin__" && k != "name" && k != "in" && k != "description" && k != "style" && k != "explode" && k != "allowEmptyValue" && k != "allowReserved" && k != "deprecated" && k != "required" && k != "schema" && k != "example" && k != "examples" && k != "content" ==> has(parameter.Extensions, k)
-//@   tag C03
 //@ func unmarshalError
 //@   modifies nothing
 //@   ensures jsonUnmarshalErr != nil ==> result != nil
+
+// ---- map-like containers: every entry and every extension is emitted, nothing else
+//@ func (*Paths).MarshalYAML
+//@   modifies nothing
+//@   ensures [no-error] result.1 == nil
+//@   ensures [nil-receiver] paths == nil ==> result.0 == nil
+//@   ensures [returns-map] paths != nil ==> typeof(result.0) == type map[string]any && ptr(result.0) != 0
+//@   ensures [entries-kept] paths != nil ==> forall k string :: has(paths.m, k) ==> has(result.0.(map[string]any), k) && result.0.(map[string]any)[k] == iface(paths.m[k])
+//@   ensures [extensions-kept] paths != nil ==> forall k string :: has(paths.Extensions, k) ==> has(result.0.(map[string]any), k)
+//@   ensures [nothing-invented] paths != nil ==> forall k string :: has(result.0.(map[string]any), k) ==> has(paths.m, k) || has(paths.Extensions, k)
+//@   loop 0 invariant forall k string :: has(m, k) <==> seen(k)
+//@   loop 1 invariant (forall k string :: has(m, k) <==> (has(paths.Extensions, k) || seen(k))) && (forall k string :: seen(k) ==> m[k] == iface(paths.m[k]))
+//@   tag C03
+
+//@ func (*Responses).Map
+//@   modifies nothing
+//@   loop 0 invariant fresh(m) && m != nil && (forall k string :: seen(k) <==> has(m, k)) && (forall k string :: has(m, k) ==> m[k] == responses.m[k])
+//@   ensures fresh(result) && result != nil
+//@   ensures responses != nil ==> (forall k string :: has(result, k) <==> has(responses.m, k))
+//@   ensures [values] responses != nil ==> (forall k string :: has(result, k) ==> result[k] == responses.m[k])
+//@   ensures responses == nil ==> (forall k string :: !has(result, k))
+//@   tag C03
+//@ func (*Responses).MarshalYAML
+//@   modifies nothing
+//@   ensures [no-error] result.1 == nil
+//@   ensures [nil-receiver] responses == nil ==> result.0 == nil
+//@   ensures [returns-map] responses != nil ==> typeof(result.0) == type map[string]any && ptr(result.0) != 0
+//@   ensures [entries-kept] responses != nil ==> forall k string :: has(responses.m, k) ==> has(result.0.(map[string]any), k) && result.0.(map[string]any)[k] == iface(responses.m[k])
+//@   ensures [extensions-kept] responses != nil ==> forall k string :: has(responses.Extensions, k) ==> has(result.0.(map[string]any), k)
+//@   ensures [nothing-invented] responses != nil ==> forall k string :: has(result.0.(map[string]any), k) ==> has(responses.m, k) || has(responses.Extensions, k)
+//@   loop 0 invariant forall k string :: has(m, k) <==> seen(k)
+//@   loop 1 invariant (forall k string :: has(m, k) <==> (has(responses.Extensions, k) || seen(k))) && (forall k string :: seen(k) ==> m[k] == iface(responses.m[k]))
+//@   tag C03
+
+//@ func (*Callback).Map
+//@   modifies nothing
+//@   loop 0 invariant fresh(m) && m != nil && (forall k string :: seen(k) <==> has(m, k)) && (forall k string :: has(m, k) ==> m[k] == callback.m[k])
+//@   ensures fresh(result) && result != nil
+//@   ensures callback != nil ==> (forall k string :: has(result, k) <==> has(callback.m, k))
+//@   ensures [values] callback != nil ==> (forall k string :: has(result, k) ==> result[k] == callback.m[k])
+//@   ensures callback == nil ==> (forall k string :: !has(result, k))
+//@   tag C03
+//@ func (*Callback).MarshalYAML
+//@   modifies nothing
+//@   ensures [no-error] result.1 == nil
+//@   ensures [nil-receiver] callback == nil ==> result.0 == nil
+//@   ensures [returns-map] callback != nil ==> typeof(result.0) == type map[string]any && ptr(result.0) != 0
+//@   ensures [entries-kept] callback != nil ==> forall k string :: has(callback.m, k) ==> has(result.0.(map[string]any), k) && result.0.(map[string]any)[k] == iface(callback.m[k])
+//@   ensures [extensions-kept] callback != nil ==> forall k string :: has(callback.Extensions, k) ==> has(result.0.(map[string]any), k)
+//@   ensures [nothing-invented] callback != nil ==> forall k string :: has(result.0.(map[string]any), k) ==> has(callback.m, k) || has(callback.Extensions, k)
+//@   loop 0 invariant forall k string :: has(m, k) <==> seen(k)
+//@   loop 1 invariant (forall k string :: has(m, k) <==> (has(callback.Extensions, k) || seen(k))) && (forall k string :: seen(k) ==> m[k] == iface(callback.m[k]))
+//@   tag C03
